@@ -169,6 +169,12 @@ def inplace_hyps(dem, params):
     ps = [p for p in params if not p.is_this]
     names = [p.name for p in ps]
     if any(n.startswith('offset') or n.startswith('stride') for n in names):
+        # read-only hypothesis: both operand arrays are the same array, each with its own stride / index list
+        a_ = [p for p in ps if p.name in ROLE_A]
+        b_ = [p for p in ps if p.name in ROLE_B]
+        nrm = lambda p: p.dty.replace(' const', '').replace(' ', '')
+        if len(a_) == 1 and len(b_) == 1 and nrm(a_[0]) == 'E*' and nrm(b_[0]) == 'E*':
+            return [{b_[0].name: a_[0].name}]
         return []
     c = [p for p in ps if p.name in ROLE_C]
     a = [p for p in ps if p.name in ROLE_A]
